@@ -26,7 +26,8 @@ def run_shard(ctx, spec):
     rnd = random.Random(ctx.seed * 1237 + spec['i'])
     ex = hj.Explorer(mon, rnd)
     if spec['w'] == 'bfs':
-        ex.bfs(spec['nj'], spec['reg'], spec['jo'], part=spec['i'], nparts=spec['n'], split_depth=spec.get('split', 3), legal_only=True)
+        ex.bfs(spec['nj'], spec['reg'], spec['jo'], part=spec['i'], nparts=spec['n'], split_depth=spec.get('split', 3), legal_only=True,
+               max_states=spec.get('max_states'))
     else:
         for k in range(spec['n']):
             ex.complete(rnd.choice(spec.get('nj', [2, 3, 3, 4, 4])), max_reg=rnd.choice([2, 3, 4]), max_jo=3)
@@ -47,8 +48,8 @@ def shards(tier, seed):
         s += [{'w': 'bfs', 'nj': 3, 'reg': 1, 'jo': 1, 'i': i, 'n': 4} for i in range(4)]
         s += [{'w': 'random', 'n': 500, 'i': 50 + i} for i in range(6)]
         return s
-    s = [{'w': 'bfs', 'nj': 2, 'reg': 3, 'jo': 2, 'i': i, 'n': 32, 'split': 4} for i in range(32)]
-    s += [{'w': 'bfs', 'nj': 3, 'reg': 2, 'jo': 2, 'i': i, 'n': 48, 'split': 4} for i in range(48)]
+    s = [{'w': 'bfs', 'nj': 2, 'reg': 3, 'jo': 2, 'i': i, 'n': 32, 'split': 4, 'max_states': 150000} for i in range(32)]
+    s += [{'w': 'bfs', 'nj': 3, 'reg': 2, 'jo': 2, 'i': i, 'n': 48, 'split': 4, 'max_states': 150000} for i in range(48)]
     s += [{'w': 'random', 'n': 3200, 'i': 200 + i} for i in range(16)]
     return s
 
